@@ -107,13 +107,20 @@ def inplace_call_targets(call, leaf, env):
 def copy_source(value):
     """value is `s.F`, `np.copy(s.F)`, `s.F.copy()`, `np.array(s.F)` -> (s, F) else None."""
     e = value
-    if isinstance(e, ast.Call):
+    # value-preserving wrappers (whether the result shares storage is R03.6's question, not this one's)
+    while isinstance(e, ast.Call):
         f = e.func
         if isinstance(f, ast.Attribute) and f.attr == 'copy' and not e.args:
             e = f.value
         elif isinstance(f, ast.Attribute) and isinstance(f.value, ast.Name) and f.value.id in ('np', 'numpy') \
-                and f.attr in ('copy', 'array') and e.args:
+                and f.attr in ('copy', 'array', 'asarray', 'ascontiguousarray') and e.args:
             e = e.args[0]
+        elif isinstance(f, ast.Attribute) and f.attr in ('astype', 'reshape') and not (isinstance(f.value, ast.Name) and f.value.id in ('np', 'numpy')):
+            if f.attr == 'reshape':
+                a = e.args[0].elts if len(e.args) == 1 and isinstance(e.args[0], (ast.Tuple, ast.List)) else e.args
+                if [src(x) for x in a] not in (['6', '1'], ['4', '4']):
+                    return None
+            e = f.value
         else:
             return None
     if isinstance(e, ast.Attribute) and e.attr in FIELDS and isinstance(e.value, ast.Name):
@@ -455,5 +462,30 @@ def r035(model, rep, tm):
                    'self.%s may be the very array held by the transform passed as `%s`: a later in-place write through either object (%s) changes '
                    'one representation of the other object, whose second representation is then stale'
                    % (fld, shared[0] if shared else '?', ', '.join(sorted(set(inplace))) or 'in-place writers'), line=stores[0].lineno)
+    # ... and the converse: a transform a method builds and hands out (copy(), results of operators) does not keep self's arrays
+    from ..engine.alias import may_alias
+
+    def leaf_self(e):
+        if isinstance(e, ast.Attribute) and isinstance(e.value, ast.Name) and e.value.id == 'self' and e.attr in ('TM', 'TAA'):
+            return {'self.' + e.attr}
+        return None
+    n_out = 0
+    for name, fi in sorted(tm.methods.items()):
+        env = {}
+        for st in walk_own(fi.node):
+            if isinstance(st, ast.Assign) and len(st.targets) == 1 and isinstance(st.targets[0], ast.Name):
+                env[st.targets[0].id] = may_alias(st.value, leaf_self, env)
+        for st in walk_own(fi.node):
+            if not isinstance(st, ast.Assign):
+                continue
+            for t in st.targets:
+                if isinstance(t, ast.Attribute) and t.attr in ('TM', 'TAA') and isinstance(t.value, ast.Name) and t.value.id != 'self':
+                    n_out += 1
+                    al = may_alias(st.value, leaf_self, env)
+                    rep.ob('R03.5', fi, '%s: %s = %s is a fresh array' % (name, src(t), src(st.value)[:50]), not al,
+                           '%s may be (a view of) %s: the object handed out shares that representation with `self`, so an in-place write through either (%s) '
+                           'changes one representation of the other object, whose second representation is then stale'
+                           % (src(t), sorted(al), ', '.join(sorted(set(inplace))) or 'in-place writers'), line=st.lineno)
+    rep.count('stores into the representation of an object built by a tm method', n_out)
     rep.count('methods of tm storing a whole representation', n_store)
     rep.floor('R03.5', 'whole-representation stores', n_store, 4)
